@@ -413,6 +413,9 @@ func (e *Engine) constVal(c *ssa.Const) AVal {
 			return FuncV{}
 		case *types.Pointer:
 			return PtrV{Key: "nil", T: u.Elem()}
+		case *types.Slice:
+			// the nil slice: length 0
+			return SliceV{Name: "nil", Len: K(0), Elem: u.Elem()}
 		}
 		return e.unk()
 	}
